@@ -13,7 +13,8 @@ NA_REASONS = {}
 for p in props:
     pid = p["id"]
     path = os.path.join(ROOT, "vlib", "props", pid + ".py")
-    if not os.path.exists(path):
+    has_thms = any(f == pid + ".v" or f.startswith(pid + "_") for f in os.listdir(os.path.join(ROOT, "coq", "Props")))
+    if not os.path.exists(path) or not has_thms:
         na.append({"property_id": pid, "reason": NA_REASONS.get(pid, "not yet built in this phase (planned, DESIGN.md §12); no claim made")})
         continue
     m = importlib.import_module("vlib.props." + pid).MANIFEST
